@@ -57,8 +57,8 @@ Step ==
                    \cup Chk(LET sg == (CHOOSE p \in pubs : p[1] = E[3])[2]
                                  kinds == {s[3] : s \in {x \in subcall : x[1] = E[2] /\ x[2] = sg}}
                              IN \/ ~(\E p \in pubs : p[1] = E[3])
-                                \/ /\ ("lifo" \in kinds /\ (k = "lifo" \/ "fifo" \notin kinds)) => E[7][1] = E[3]                  \* front of the queue
-                                   /\ ("fifo" \in kinds /\ (k = "fifo" \/ "lifo" \notin kinds)) => E[7][Len(E[7])] = E[3], "WrongEnd")   \* back (C09)
+                                \/ /\ ("lifo" \in kinds /\ (k = "lifo" \/ "fifo" \notin kinds)) => (E[7] # <<>> /\ E[7][1] = E[3])  \* front of the queue
+                                   /\ ("fifo" \in kinds /\ (k = "fifo" \/ "lifo" \notin kinds)) => (E[7] # <<>> /\ E[7][Len(E[7])] = E[3]), "WrongEnd")   \* back (C09); an empty queue holds it at neither end
               /\ UNCHANGED <<started, subret, subcall, ineffect, pubs, putk, owed, ndisp>>
     [] E[1] = "disp" ->
          IF E[4] = 0 THEN bad' = {} /\ Same
